@@ -58,6 +58,8 @@ TRANSLATORS = {
     "psl_table": ("psl_table.py", ["public-suffix/src/tld_list.rs"], "theories/Psl/gen/PslTable.v"),
     "psl_rules": ("psl_rules.py", ["public-suffix/public_suffix_list.dat"], "theories/Psl/gen/PslRules.v"),
     "status": ("status.py", ["passkey-types/src/ctap2/error.rs"], "theories/Wire/gen/Status.v"),
+    "ctap_schema": ("ctap_schema.py", ["passkey-types/src"], "theories/Wire/gen/CtapSchema.v"),
+    "webauthn_error": ("webauthn_error.py", ["passkey-client/src/lib.rs"], "theories/Wire/gen/WebauthnError.v"),
 }
 
 
@@ -130,8 +132,12 @@ def coq_makefile():
 
 def coq_build(targets, timeout=COQ_TIMEOUT):
     """Full .vo build of the given .vo targets (relative to coq/). Returns make output."""
-    with Lock("coq"):
+    # one lock per theory area (Auth, Psl, Wire, ...): builds of different areas run concurrently,
+    # they only share the stable Lib layer
+    with Lock("coq-mk"):
         coq_makefile()
+    area = targets[0].split("/")[1] if targets and targets[0].count("/") >= 2 else "all"
+    with Lock("coq-" + area):
         rc, out = sh(["make", "-j%d" % NPROC] + targets, cwd=COQ, timeout=timeout)
     if rc != 0:
         m = re.search(r'File "([^"]+)", line (\d+)', out)
@@ -144,8 +150,9 @@ def props_check(prop):
     """Rebuild Props/<prop>.v (always recompiled so Print Assumptions output is captured),
     returning (n_theorems, assumptions: {theorem: text})."""
     rel = "theories/Props/%s" % prop
-    with Lock("coq"):
+    with Lock("coq-mk"):
         coq_makefile()
+    with Lock("coq-Props-" + prop):
         for ext in (".vo", ".glob", ".vok", ".vos"):
             try: os.remove(os.path.join(COQ, rel + ext))
             except FileNotFoundError: pass
@@ -239,7 +246,7 @@ def coq_eval(tag, preamble, case_terms, funcs, shard=150, timeout=900, shard_cha
             for n in re.findall(r"\d+", b):
                 results[fn].append(starts[k] + int(n))
     e = dict(os.environ)
-    with Lock("coq", shared=True):
+    if True:
         pending = list(procs)
         while pending or running:
             while pending and len(running) < NPROC:
